@@ -1,6 +1,9 @@
-(* The text CliModel.cli was written from: main, get_v_opt, parseOpts, parseModeNumber, getArgsKey, getRandomBuffer,
-   check_ctype / check_htype, getRandomKey, printkey (option-driven front end, compiled with -DOPT_ON).  Regenerated on every
-   run (Gen/CliText.v); an edit breaks [cli_text_unchanged] and with it CliProofs.vo / Properties_C17 (and C15). *)
+(* The text of main() that CliModel.cli's dispatch and SrcRun6.main_stmt were written from.  main builds two LOCAL class objects
+   (Settings, runcrypt), which MiniC does not express, so it is the one function of the program that is transcribed by hand; its
+   canonical text is regenerated on every run (Gen/CliText.v) and an edit breaks [cli_text_unchanged] and with it CliProofs.vo /
+   Properties_C17 (and C15).  Everything main calls is translated: get_v_opt, parseOpts, parseModeNumber, getArgsKey,
+   getRandomBuffer, check_ctype / check_htype, getRandomKey (Gen/Src_cli.v; refinement theorem SRC_cli_parse), the constructors and
+   the three operations (Gen/Src_whole.v). *)
 From Coq Require Import List String.
 From Wencry.Gen Require Import CliText.
 Import ListNotations.
@@ -8,25 +11,7 @@ Local Open Scope string_scope.
 
 Definition expected_cli_text : list (string * string) :=
   [("main/2",
-    "(int argc, char ** argv) { unsigned char * vals = NULL; if (argc == 1) vals = get_v_mod1() else { vals = get_v_opt(argc, argv); if (vals == NULL) return 1; if (((vpak_t *)vals)->.mode == 86) { version(); return 0; } else if (((vpak_t *)vals)->.mode == 104) { help(); return 0; } } Settings settings = Settings(((vpak_t *)vals)->.ctype, ((vpak_t *)vals)->.htype, ((vpak_t *)vals)->.no_echo); bool flag; runcrypt runner = runcrypt(((vpak_t *)vals)->.fp, ((vpak_t *)vals)->.out, ((vpak_t *)vals)->.key, Settings(settings), CXXDefaultArgExpr<>); if (((vpak_t *)vals)->.mode == 101 || ((vpak_t *)vals)->.mode == 69) flag = runner.execute_encrypt(((vpak_t *)vals)->.size, ((vpak_t *)vals)->.r_buf) else if (((vpak_t *)vals)->.mode == 100 || ((vpak_t *)vals)->.mode == 68) flag = runner.execute_decrypt(((vpak_t *)vals)->.size) else if (((vpak_t *)vals)->.mode == 118) flag = runner.execute_verify(((vpak_t *)vals)->.size) else return -2; return flag ? 0 : -1; }");
-   ("parseModeNumber/1",
-    "(const char * arg) { char * end = NULL; long v = strtol(arg, &end, 10); if (end == arg || *end != 0 || v < 0 || v > 127) return -1; return (int)v; }");
-   ("getArgsKey/1",
-    "(const char * arg) { u8_t * keyout = new u8_t *(16); base64_to_hex((const u8_t *)arg, 24, keyout); return keyout; }");
-   ("getRandomBuffer/1",
-    "(u8_t * r_buf) { for (int i = 0; i < 256; ++i) r_buf[i] = rand(); }");
-   ("parseOpts/2",
-    "(char c, vpak_t * res) { int tnum; size_t fsize = 0; SwitchStmt<c, { CaseStmt<101, if (res->.mode == 117) res->.mode = 101 else { strlog(std::string(""Error :"", CXXDefaultArgExpr<>), std::string(""Only one mode can be specified"", CXXDefaultArgExpr<>)); return false; }>; break; CaseStmt<100, if (res->.mode == 117) res->.mode = 100 else { strlog(std::string(""Error :"", CXXDefaultArgExpr<>), std::string(""Only one mode can be specified"", CXXDefaultArgExpr<>)); return false; }>; break; CaseStmt<118, if (res->.mode == 117) res->.mode = 118 else { strlog(std::string(""Error :"", CXXDefaultArgExpr<>), std::string(""Only one mode can be specified"", CXXDefaultArgExpr<>)); return false; }>; break; CaseStmt<105, res->.fp = fopen(optarg, ""rb"")>; fout_too_long = snprintf(fout, sizeof(...), ""%s.wenc"", optarg) >= (int)sizeof(...); CXXTryStmt<{ uintmax_t fileSize = file_size(const std::filesystem::path(optarg, CXXDefaultArgExpr<>)); fsize = fileSize; strlog(std::string(""File size: "", CXXDefaultArgExpr<>), operator+(to_string(((double)fileSize) / ((double)(1024 * 1024))), ""MB"")); }, CXXCatchStmt<std::filesystem::filesystem_error & e;, { operator<<(operator<<(operator<<(cerr, ""Error: ""), e.what()), endl); }>>; if (res->.fp == NULL) { strlog(std::string(""Error :"", CXXDefaultArgExpr<>), operator+(""Could not open file "", (std::string)std::string(optarg, CXXDefaultArgExpr<>))); return false; } res->.size = fsize; break; CaseStmt<111, res->.out = fopen(optarg, ""wb+"")>; if (res->.out == NULL) { strlog(std::string(""Error :"", CXXDefaultArgExpr<>), operator+(""Could not open file "", (std::string)std::string(optarg, CXXDefaultArgExpr<>))); return false; } break; CaseStmt<107, if (is_valid_b64((unsigned char *)optarg, strlen(optarg))) { res->.key = getArgsKey(optarg); strlog(std::string(""Key :"", CXXDefaultArgExpr<>), std::string(""Using specific key"", CXXDefaultArgExpr<>)); } else { strlog(std::string(""Error :"", CXXDefaultArgExpr<>), std::string(""Invalid base64 key"", CXXDefaultArgExpr<>)); return false; }>; break; CaseStmt<110, res->.no_echo = true>; break; CaseStmt<1, if (res->.ctype == -1) { tnum = parseModeNumber(optarg); if (tnum < 0 || tnum > 127) { strlog(std::string(""Error :"", CXXDefaultArgExpr<>), std::string(""Wrong ctype"", CXXDefaultArgExpr<>)); return false; } res->.ctype = tnum; printCryptMode(res->.ctype); } else { strlog(std::string(""Error :"", CXXDefaultArgExpr<>), std::string(""Only one ctype can be specified"", CXXDefaultArgExpr<>)); return false; }>; break; CaseStmt<2, if (res->.htype == -1) { tnum = parseModeNumber(optarg); if (tnum < 0 || tnum > 127) { strlog(std::string(""Error :"", CXXDefaultArgExpr<>), std::string(""Wrong htype"", CXXDefaultArgExpr<>)); return false; } res->.htype = tnum; printHashMode(res->.htype); } else { strlog(std::string(""Error :"", CXXDefaultArgExpr<>), std::string(""Only one htype can be specified"", CXXDefaultArgExpr<>)); return false; }>; break; CaseStmt<86, if (res->.mode == 117) res->.mode = 86 else { strlog(std::string(""Error :"", CXXDefaultArgExpr<>), std::string(""Only one mode can be specified"", CXXDefaultArgExpr<>)); return false; }>; break; CaseStmt<104, if (res->.mode == 117) res->.mode = 104 else { strlog(std::string(""Error :"", CXXDefaultArgExpr<>), std::string(""Only one mode can be specified"", CXXDefaultArgExpr<>)); return false; }>; break; DefaultStmt<strlog(std::string(""Error :"", CXXDefaultArgExpr<>), std::string(""Unknown option"", CXXDefaultArgExpr<>))>; return false; }>; return true; }");
-   ("get_v_opt/2",
-    "(int argc, char ** argv) { srand((unsigned int)time(NULL)); memset(fout, 0, sizeof(...)); fout_too_long = false; int option_index = 0; optind = 0; vpak_t * res = new vpak_t *(vpak_t()); res->.mode = 117; res->.ctype = -1; res->.htype = -1; res->.no_echo = false; res->.fp = NULL; res->.out = NULL; res->.key = NULL; while (true) { int c = getopt_long(argc, argv, shortOpts, longOpts, &option_index); if (c == -1) break; if (!parseOpts(c, res)) { delete res; return NULL; } } if (res->.mode == 117) { strlog(std::string(""Error :"", CXXDefaultArgExpr<>), std::string(""Wrong Mode"", CXXDefaultArgExpr<>)); delete res; return NULL; } else if (res->.mode == 101) { if (res->.ctype == -1) { printCryptMode(0); res->.ctype = 0; } else if (!check_ctype(res->.ctype)) { strlog(std::string(""Error :"", CXXDefaultArgExpr<>), std::string(""Wrong ctype"", CXXDefaultArgExpr<>)); delete res; return NULL; } if (res->.htype == -1) { printHashMode(0); res->.htype = 0; } else if (!check_htype(res->.htype)) { strlog(std::string(""Error :"", CXXDefaultArgExpr<>), std::string(""Wrong htype"", CXXDefaultArgExpr<>)); delete res; return NULL; } if (res->.key == NULL) { strlog(std::string(""Key :"", CXXDefaultArgExpr<>), std::string(""Using random key"", CXXDefaultArgExpr<>)); res->.key = getRandomKey(); } if (res->.fp == NULL) { strlog(std::string(""Error :"", CXXDefaultArgExpr<>), std::string(""No file specified"", CXXDefaultArgExpr<>)); delete res; return NULL; } if (res->.out == NULL) { strlog(std::string(""Note :"", CXXDefaultArgExpr<>), std::string(""Using default output file name"", CXXDefaultArgExpr<>)); if (!fout_too_long) res->.out = fopen(fout, ""wb+""); if (res->.out == NULL) { strlog(std::string(""Error :"", CXXDefaultArgExpr<>), std::string(""Could not open default output file, use -o"", CXXDefaultArgExpr<>)); delete res; return NULL; } } getRandomBuffer(res->.r_buf); printkey(res->.key); } else if (res->.mode == 100 || res->.mode == 118) { if (res->.fp == NULL) { strlog(std::string(""Error :"", CXXDefaultArgExpr<>), std::string(""No file specified"", CXXDefaultArgExpr<>)); delete res; return NULL; } if (res->.key == NULL) { strlog(std::string(""Error :"", CXXDefaultArgExpr<>), std::string(""No key specified"", CXXDefaultArgExpr<>)); delete res; return NULL; } if (res->.mode == 100 && res->.out == NULL) { strlog(std::string(""Error :"", CXXDefaultArgExpr<>), std::string(""No output file specified"", CXXDefaultArgExpr<>)); delete res; return NULL; } } return res->buf; }");
-   ("check_ctype/1",
-    "(int ctype_num) { return ctype_num >= 0 && ctype_num < ctype.size(); }");
-   ("check_htype/1",
-    "(int htype_num) { return htype_num >= 0 && htype_num < htype.size(); }");
-   ("getRandomKey/0",
-    "() { srand(time(NULL)); u8_t * keyout = new u8_t *(16); for (int i = 0; i < 16; ++i) keyout[i] = rand(); return keyout; }");
-   ("printkey/1",
-    "(u8_t * key) { char[128] outk; hex_to_base64(key, 16, (u8_t *)outk); std::string skey = std::string(outk, CXXDefaultArgExpr<>); strlog(std::string(""Key is:"", CXXDefaultArgExpr<>), std::string(skey)); }")].
+    "(int argc, char ** argv) { unsigned char * vals = NULL; if (argc == 1) vals = get_v_mod1() else { vals = get_v_opt(argc, argv); if (vals == NULL) return 1; if (((vpak_t *)vals)->.mode == 86) { version(); return 0; } else if (((vpak_t *)vals)->.mode == 104) { help(); return 0; } } Settings settings = Settings(((vpak_t *)vals)->.ctype, ((vpak_t *)vals)->.htype, ((vpak_t *)vals)->.no_echo); bool flag; runcrypt runner = runcrypt(((vpak_t *)vals)->.fp, ((vpak_t *)vals)->.out, ((vpak_t *)vals)->.key, Settings(settings), CXXDefaultArgExpr<>); if (((vpak_t *)vals)->.mode == 101 || ((vpak_t *)vals)->.mode == 69) flag = runner.execute_encrypt(((vpak_t *)vals)->.size, ((vpak_t *)vals)->.r_buf) else if (((vpak_t *)vals)->.mode == 100 || ((vpak_t *)vals)->.mode == 68) flag = runner.execute_decrypt(((vpak_t *)vals)->.size) else if (((vpak_t *)vals)->.mode == 118) flag = runner.execute_verify(((vpak_t *)vals)->.size) else return -2; return flag ? 0 : -1; }")].
 
 Lemma cli_text_unchanged : cli_text = expected_cli_text.
 Proof. reflexivity. Qed.
